@@ -307,6 +307,87 @@ fn run_cross(ctx: &mut Ctx, sk: &SecretKey) {
     }
 }
 
+/// A hostile leader signs 64 shards that are NOT one Reed-Solomon codeword (a genuine slice with one shard
+/// altered before the Merkle tree is built and signed). Every shred validates on its own. Whatever subset a
+/// node holds, decoding must fail (the tree rebuilt over the re-derived shards cannot match the signed root)
+/// and leave the supplied shreds untouched: the verdict must not depend on the subset.
+fn non_codeword_case<S: Shredder>(ctx: &mut Ctx, rng: &mut SRng, name: &'static str, sk: &SecretKey, pk: &PublicKey, payload_len: usize) {
+    use crate::props::c15::RefTree;
+    use crate::wire::{ShredParts, de_shred};
+    let mut sh = S::default();
+    let slot = rng.random_range(1..1000u64);
+    let (wp, si, last) = (rng.random_bool(0.5), rng.random_range(0..1024usize), rng.random_bool(0.5));
+    let Some(slice) = mk_slice(rng, payload_len, wp, slot, si, last) else { return };
+    let Ok(Ok(shreds)) = guarded(|| sh.shred(&slice, sk)) else { return };
+    let mut parts: Vec<ShredParts> = Vec::new();
+    for s in shreds.iter() {
+        let Some(p) = ShredParts::parse(&ser(s.as_shred())) else { return };
+        parts.push(p);
+    }
+    if parts[0].data.is_empty() {
+        return;
+    }
+    // alter one shard (data or coding), occasionally two
+    let mut altered = vec![rng.random_range(0..TOTAL_SHREDS)];
+    if rng.random_bool(0.3) {
+        altered.push(rng.random_range(0..TOTAL_SHREDS));
+    }
+    for &a in &altered {
+        let l = parts[a].data.len();
+        parts[a].data[rng.random_range(0..l)] ^= 1 << rng.random_range(0..8);
+    }
+    let leaves: Vec<Vec<u8>> = parts.iter().map(|p| p.data.clone()).collect();
+    let rt = RefTree::new(&leaves);
+    let mut msg = Vec::with_capacity(49);
+    msg.extend_from_slice(&parts[0].slot.to_le_bytes());
+    msg.extend_from_slice(&parts[0].slice_index.to_le_bytes());
+    msg.push(parts[0].is_last);
+    msg.extend_from_slice(&rt.root());
+    let sig = ser(&sk.sign_bytes(&msg));
+    let mut forged: Vec<ValidatedShred> = Vec::new();
+    for (i, p) in parts.iter_mut().enumerate() {
+        p.sig.copy_from_slice(&sig);
+        p.proof = rt.proof(i);
+        let Some(shred) = de_shred(&p.encode()) else { return };
+        match ValidatedShred::try_new(shred, None, pk) {
+            Ok(v) => forged.push(v),
+            Err(_) => {
+                ctx.count("non-codeword:harness-built-shred-did-not-validate");
+                return;
+            }
+        }
+    }
+    ctx.count("non-codeword-slices");
+    for shape in ["all64", "first32", "last32", "random32", "random48", "random63", "alternating-even", "alternating-odd"] {
+        let sub = subset(rng, shape);
+        let mut arr: [Option<ValidatedShred>; TOTAL_SHREDS] = [const { None }; TOTAL_SHREDS];
+        for &i in &sub {
+            arr[i] = Some(forged[i].clone());
+        }
+        let before = arr_bytes(&arr);
+        let res = guarded(|| sh.deshred(&mut arr));
+        ctx.eval();
+        let wit = json!({"shredder": name, "payload_len": payload_len, "altered_shards": altered, "subset_shape": shape, "subset": sub});
+        match res {
+            Err(p) => ctx.violation(format!("C11 {name} deshred {} on a signed non-codeword", p.sig()), p.msg, wit),
+            Ok(Err(e)) => {
+                ctx.count(&format!("non-codeword:{name}:{e:?}"));
+                ctx.distinct(format!("non-codeword:{name}:{shape}:{e:?}"));
+                if arr_bytes(&arr) != before {
+                    ctx.violation(format!("C11 {name} deshred error {e:?} modified the supplied shreds"), format!("signed non-codeword, {shape}"), wit);
+                }
+            }
+            Ok(Ok(_)) => {
+                ctx.violation(
+                    format!("C11 {name} deshred accepted shreds that are not one codeword (verdict depends on the subset held) shape={shape}"),
+                    format!("altered shards {altered:?}, {} shreds supplied", sub.len()),
+                    wit,
+                );
+            }
+        }
+    }
+}
+
 fn lengths(ctx: &Ctx, max: usize) -> Vec<usize> {
     let mut v = Vec::new();
     if ctx.quick() {
@@ -360,6 +441,23 @@ pub fn run(ctx: &mut Ctx) -> Result<(), String> {
     run_lane::<PetsShredder>(ctx, "pets", &sk, &pk);
     run_lane::<AontShredder>(ctx, "aont", &sk, &pk);
     run_cross(ctx, &sk);
+    {
+        let mut rng = ctx.rng("non-codeword");
+        let n = ctx.iters(320, 16000);
+        for i in 0..n {
+            let len = match i % 3 {
+                0 => rng.random_range(9..300),
+                1 => rng.random_range(300..6000),
+                _ => rng.random_range(6000..32000),
+            };
+            match (i + ctx.shard as u64) % 4 {
+                0 => non_codeword_case::<RegularShredder>(ctx, &mut rng, "regular", &sk, &pk, len),
+                1 => non_codeword_case::<CodingOnlyShredder>(ctx, &mut rng, "coding-only", &sk, &pk, len),
+                2 => non_codeword_case::<PetsShredder>(ctx, &mut rng, "pets", &sk, &pk, len),
+                _ => non_codeword_case::<AontShredder>(ctx, &mut rng, "aont", &sk, &pk, len),
+            }
+        }
+    }
     ctx.sample(json!({"shredders": ["regular", "coding-only", "pets", "aont"], "subset_shapes": SUBSET_SHAPES, "example": {"shredder": "regular", "payload_len": 8192 + (ctx.shard % 64), "with_parent": true, "shape": "random32"}}));
     Ok(())
 }
